@@ -217,6 +217,14 @@ def run(tier, seed, rep):
     rep.add_mc("MC_Parser (parser machine: terminates, never reads past the end, accepted results are well formed)", r)
     mlen = 4 if thorough else 3
     strs = ["".join(t) for n in range(0, mlen + 1) for t in itertools.product(TOKENS, repeat=n)]
+    # ... and on seeded longer texts: random token strings up to 12 tokens, valid spellings and their one-token mutations
+    for i in range(20000 if thorough else 3000):
+        r_ = i % 3
+        if r_ == 0:
+            strs.append("".join(rnd.choice(TOKENS) for _ in range(rnd.randint(5, 12))))
+        else:
+            t_ = anngen.render(anngen.annotation(rnd, 1, 6, density=0.3), rnd.random() < 0.5)
+            strs.append(t_ if r_ == 1 else mutate(rnd, t_))
     mevs = []
     for i in range(0, len(strs), 500):
         chunk = strs[i:i + 500]
